@@ -675,6 +675,13 @@ def check_history(chk, cfg, is_map, ops, o_vers, o_results, producer, resp, mode
         if got == "!panic":
             chk.violation(f"map:{what}:{n}:panic", f"`{op}` panicked under [{cfg.args()}]", replay)
             return
+        if (not consistent and n in ("eq", "le", "lt", "ge", "gt", "disj") and qi < len(mres)
+                and {mres[qi], got} in ({"f", "!user"}, {"f", "!oob"})):
+            # `all(..)` (and mapping `==`) stops at the first false element and yields the first error it meets before that; with an
+            # erroring hash/eq the answer depends on HashMap's (random) iteration order, which the model fixes
+            chk.count("tie:order-dependent-all-under-erroring-functions")
+            qi += 1
+            continue
         if qi >= len(mres) or mres[qi] != got:
             chk.violation(f"tie:map:{what}:{n}", f"model and implementation disagree on `{op}` under [{cfg.args()}]: model {mres[qi] if qi < len(mres) else '?'} implementation {got}",
                           replay, no_input=True)
